@@ -76,7 +76,7 @@ func c19Worker(args []string) error {
 	bursts := []uint64{0, 1, 625000, 18446744073709551615}
 	units := []string{"bps", "Kbps", "Mbps", "Gbps", "", "Tbps"}
 	methods := []string{"GET", "PUT", "POST", "DELETE", "PATCH", "HEAD", "OPTIONS"}
-	bodies := []string{"valid", "valid", "valid", "empty", "notjson", "wrongtypes", "truncated"}
+	bodies := []string{"valid", "valid", "valid", "empty", "notjson", "wrongtypes", "truncated", "trailing"}
 
 	one := func(method, body, unit string, ul, dl, ub, db uint64) error {
 		doc := fmt.Sprintf(`{"sliceName":"s1","sliceQos":{"uplinkMbr":%d,"downlinkMbr":%d,"bitrateUnit":%q,"uplinkBurstSize":%d,"downlinkBurstSize":%d},"ueResourceInfo":[{"uePoolId":"pool1","dnn":"internet"}]}`, ul, dl, unit, ub, db)
@@ -95,6 +95,8 @@ func c19Worker(args []string) error {
 			payload = []byte("sliceName=s1&uplinkMbr=5")
 		case "wrongtypes":
 			payload = []byte(`{"sliceName":7,"sliceQos":{"uplinkMbr":"fast","downlinkMbr":[1]}}`)
+		case "trailing": // a valid document followed by something else is not a well-formed body
+			payload = []byte(doc + []string{" xyz", "}", doc, "]", ",", " 1"}[rng.Intn(6)])
 		case "truncated": // the client announces more than it sends and half-closes: the body read fails on the server
 			payload = []byte(doc)
 		}
@@ -169,7 +171,7 @@ func c19Worker(args []string) error {
 
 	// systematic: every method x body class; every unit x boundary rate for the writing methods
 	for _, m := range methods {
-		for _, b := range []string{"valid", "empty", "notjson", "wrongtypes", "truncated"} {
+		for _, b := range []string{"valid", "empty", "notjson", "wrongtypes", "truncated", "trailing", "trailing", "trailing"} {
 			if err := one(m, b, "Mbps", 5, 7, 0, 0); err != nil {
 				return err
 			}
